@@ -4,7 +4,7 @@ import vlib
 from vlib import Check, tlc, tlc_must_hold, vh, workdir, write_ndjson
 
 PROP = "C06"
-TEMPLATE = ('CONSTANTS CliInit = {ci} SrvMax = {sm} MaxHist = {mh} MaxSteps = {ms} Window = {w} CliStart = "{cs}" KeepLog = {kl} Faults = {fl}\n'
+TEMPLATE = ('CONSTANTS CliInit = {ci} SrvMax = {sm} MaxHist = {mh} MaxSteps = {ms} Window = {w} CliStart = "{cs}" KeepLog = {kl} Faults = {fl} Crossing = {cr}\n'
             'SPECIFICATION Spec\nVIEW view\nPROPERTY FailAtomic\nINVARIANTS SyncCorrect VersionOk Consistent NoStaleSession {emit}\n{prop}CHECK_DEADLOCK FALSE\n')
 
 
@@ -14,6 +14,7 @@ def cfg(wd, name, **k):
     k.setdefault("prop", "")
     k.setdefault("kl", "TRUE")
     k.setdefault("fl", "FALSE")
+    k.setdefault("cr", "TRUE")
     with open(path, "w") as f:
         f.write(TEMPLATE.format(**k))
     return path
@@ -22,7 +23,7 @@ def cfg(wd, name, **k):
 def trace_cfg(wd, name, ci, sm, w, cs):
     path = os.path.join(wd, name)
     with open(path, "w") as f:
-        f.write(f'CONSTANTS CliInit = {ci} SrvMax = {sm} MaxHist = 1000000 MaxSteps = 1000000 Window = {w} CliStart = "{cs}" KeepLog = FALSE Faults = FALSE\n'
+        f.write(f'CONSTANTS CliInit = {ci} SrvMax = {sm} MaxHist = 1000000 MaxSteps = 1000000 Window = {w} CliStart = "{cs}" KeepLog = FALSE Faults = FALSE Crossing = FALSE\n'
                 'SPECIFICATION TraceSpec\nINVARIANTS SyncCorrect VersionOk NoStaleSession\nPOSTCONDITION TraceAccepted\nCHECK_DEADLOCK FALSE\n')
     return path
 
@@ -41,7 +42,7 @@ def run(tier, seed):
     for (ci, sm, cs, w) in grid:
         r = tlc("MC_RtrSession", cfg(wd, "mc.cfg", ci=ci, sm=sm, mh=2, ms=2, w=w, cs=cs), workers=workers, xmx="8g", timeout=1800)
         tlc_must_hold(r, f"RtrSession {ci}/{sm}/{cs}/{w}")
-        vlib.require_coverage(r, ["SrcUpdate", "CliBegin", "SrvQuery", "SrvSendEod", "CliApply"], f"RtrSession {ci}/{sm}/{cs}/{w}")
+        vlib.require_coverage(r, ["SrcUpdate", "CliBegin", "SrvQuery", "SrvSendEod", "CliApply"] + (["NotifyCross"] if sm >= 2 else []), f"RtrSession {ci}/{sm}/{cs}/{w}")
         c.add_tlc(r, f"client v{ci} / server max v{sm} / start {cs} / window {w}: 2 source versions, 2 steps: SyncCorrect VersionOk Consistent NoStaleSession")
         cases += r.replay
     # transport faults: the connection may break at any point of a response (ConnLost); the library's server only
@@ -68,8 +69,8 @@ def run(tier, seed):
                     simulate=3000, depth=60, seed=seed * 10 + k)
             c.add_tlc(r, f"simulation: 3000 random behaviours, 4 source versions, 4 steps ({ci}/{sm}/{cs})")
             cases += r.replay
-    if len(cases) < 1000:
-        raise vlib.ToolError("too few behaviours emitted")
+    if len(cases) < 1000 or not any(x["log"][-1]["a"] == "cross" for x in cases):
+        raise vlib.ToolError("too few behaviours emitted / none with a notification crossing a query")
     path = write_ndjson(os.path.join(wd, "cases.ndjson"), cases)
     s = vh(["replay", "rtrsession", path], timeout=3000)
     c.add_harness(s, "every emitted behaviour executed: real Client against real Server (or the legacy cache for SrvMax < 2), "
